@@ -148,10 +148,18 @@ def jobs(tier, seed):
                     js.append({"label": f"body{n}#{idx} {order} requested={t} max={m}" + ("|in-order" if fifo else ""),
                                "wl": wl("jump_dag_loop", n, idx, t, m, order), "source": shapes[idx][2], "fifo": fifo,
                                "target": shapes[idx][1], "requested": t, "limit": limit, "forward": False, "budget": {}})
+    # a worker death at any point of any delivery (claim / before the processed mark / before the ack) on the small loops
+    for shape in ("self", "cycle2"):
+        mk, src, tgt, fwd = SHAPES[shape]
+        for t, m in ((1, None), (2, 2), (3, 2)):
+            limit = DEFAULT_MAX if m is None else m
+            js.append({"label": f"{shape} requested={t} max={m}@wf|worker-death1", "wl": mk(t, m, "wf"), "source": src,
+                       "target": tgt, "requested": t, "limit": limit, "forward": fwd, "budget": {"noack": 1},
+                       "max_states": 400000})
     if tier == "thorough":
         more = []
         for j in js:
-            if j["requested"] <= 3 and not j["label"].startswith("body"):
+            if j["requested"] <= 3 and not j["label"].startswith("body") and "worker-death" not in j["label"]:
                 more.append(dict(j, label=j["label"] + "|noack1", budget={"noack": 1}, max_states=400000))
                 more.append(dict(j, label=j["label"] + "|sweep1", budget={"sweep": 1}))
         js += more
